@@ -32,6 +32,9 @@ class FakeDevice:
     def __init__(self, total):
         self.dev_properties = {'max_arb_mem': 2 * total}
         self.mem = {}
+        self.deflen = {}          # slot number -> defined length (:TRAC:DEF / download_segment_lengths), round 4
+        self.flushes = 0          # number of download_segment_lengths calls
+        self.defs = 0             # number of :TRAC:DEF commands
         self.sel = None
         self.is_open = True
 
@@ -43,12 +46,27 @@ class FakeDevice:
             if m:
                 self.sel = int(m.group(1))
                 continue
+            m = re.fullmatch(r':?TRAC:DEF (\d+), ?(\d+)', part)
+            if m:
+                self.deflen[int(m.group(1))] = int(m.group(2))
+                self.defs += 1
+                continue
             m = re.fullmatch(r':?TRAC:DEL (\d+)', part)
             if m:
                 self.mem.pop(int(m.group(1)), None)
+                self.deflen.pop(int(m.group(1)), None)
                 continue
             if part in (':TRAC:DEL:ALL', 'TRAC:DEL:ALL'):
                 self.mem = {}
+                self.deflen = {}
+
+    def download_segment_lengths(self, seg_len_list, pref=':SEGM:DATA', paranoia_level=None):
+        # the segment-length table of the instrument: slot k+1 := seg_len_list[k] for ALL k
+        self.flushes += 1
+        for k, n in enumerate(seg_len_list):
+            self.deflen[k + 1] = int(n)
+
+    _download_segment_lengths = download_segment_lengths      # name used by the feature driver
 
     def send_binary_data(self, pref=None, bin_dat=None, **kw):
         if pref != ':TRAC:DATA':
@@ -174,13 +192,19 @@ def make_tuple_feature(F, total):
     return ct, pm, dev
 
 
+# dtype of the lengths FakeTaborProgram.get_sampled_segments() delivers.  The real TaborProgram._calc_sampled_segments
+# returns np.array(segment_lengths, dtype=np.uint64); until round 4 the stand-in delivered uint32.  'list' = python list.
+LEN_DTYPE = 'u8'
+
+
 class FakeTaborProgram:
     def __init__(self, program, **kw):
         self.segs = program
 
     def get_sampled_segments(self):
         import numpy as np
-        return [Seg(h, n) for h, n in self.segs], np.asarray([n for _, n in self.segs], dtype=np.uint32)
+        lens = [n for _, n in self.segs]
+        return [Seg(h, n) for h, n in self.segs], (lens if LEN_DTYPE == 'list' else np.asarray(lens, dtype=np.dtype(LEN_DTYPE)))
 
 
 def make_pair(T, total):
@@ -216,14 +240,23 @@ def snapshot(cp, dev):
         # device content of the slots the driver believes to exist (None = nothing was ever written / deleted)
         'dev': [dev.mem.get(i + 1) for i in range(n)],
         'dev_extra': sorted(k for k in dev.mem if k > n),
+        # round 4: _segment_lengths, the instrument's defined lengths of the slots the driver believes to exist, the
+        # lengths of the programs' segments (same order as 'progs')
+        'lens': [int(x) for x in cp._segment_lengths.tolist()],
+        'devlen': [dev.deflen.get(i + 1) for i in range(n)],
+        'devlen_extra': sorted(k for k in dev.deflen if k > n),
+        'plens': [pl for _, pl in sorted((int(name), [int(l) for _, l in p.program.segs])
+                                         for name, p in cp._known_programs.items())],
     }
 
 
-def run_history(total, ops, driver='awgs'):
+def run_history(total, ops, driver='awgs', len_dtype='u8'):
     """apply ops = [['upload', name, [[hash, len], ...], force] | ['free', name] | ['remove', name] | ['cleanup'] |
     ['clear']] to a fresh channel pair (driver='awgs': hardware/awgs/tabor.py::TaborChannelPair; 'feature':
     hardware/feature_awg/tabor.py::TaborChannelTuple + TaborProgramManagement); one observation per operation"""
     import warnings
+    global LEN_DTYPE
+    LEN_DTYPE = len_dtype
     feature = driver == 'feature'
     T = load_feature_module() if feature else load_driver_module()
     saved = (T.TaborProgram, T.make_compatible, T.make_combined_wave)
@@ -271,6 +304,7 @@ def run_history(total, ops, driver='awgs'):
                 err = 'BadIndex'
             snap = snapshot(cp, dev)
             snap['err'] = err
+            snap['flushes'], snap['defs'] = dev.flushes, dev.defs
             out.append(snap)
     finally:
         T.TaborProgram, T.make_compatible, T.make_combined_wave = saved
